@@ -108,7 +108,7 @@ def run(ch: Checker) -> None:
                         sym = Sym(p)
                         tg = nxt.ast.targets[0]
                         ev = [kw.value for kw in c.keywords if kw.arg == 'events'] or (list(c.args[1:2]))
-                        okn = norm(sym.value(tg.value, nidx)) == 'self.registered_events_by_work_ids[work_id]' and \
+                        okn = norm(sym.value(tg.value, nidx)) == 'self.registered_events_by_work_ids[%s]' % uwe.params[1] and \
                             norm(sym.value(tg.slice, nidx)) == norm(sym.value(c.args[0], idx)) and \
                             bool(ev) and norm(sym.value(nxt.ast.value, nidx)) == norm(sym.value(ev[0], idx))
                     prev = sites.get(id(c), (c, True))
@@ -135,7 +135,7 @@ def run(ch: Checker) -> None:
             nd = gcl.nodes[nid]
             if nd.kind == 'for':
                 it = norm(sym.value(nd.ast.iter, i))  # type: ignore[union-attr]
-                if it in ('self.registered_events_by_work_ids[work_id]', 'self.registered_events_by_work_ids[work_id].keys()', 'list(self.registered_events_by_work_ids[work_id])') and \
+                if it in [t_ % cl.params[1] for t_ in ('self.registered_events_by_work_ids[%s]', 'self.registered_events_by_work_ids[%s].keys()', 'list(self.registered_events_by_work_ids[%s])')] and \
                         any(isinstance(c, ast.Call) and attr_chain(c.func) == 'self.selector.unregister' and c.args and norm(c.args[0]) == norm(nd.ast.target) for c in walk_no_nested(nd.ast)):  # type: ignore[union-attr]
                     ok = True
         if not ok:
@@ -149,7 +149,7 @@ def run(ch: Checker) -> None:
                               lambda p, r=reg_in: True if r is None else any(_has_call(st, (r,)) for i, st in p.stmts(completed_only=True)))
         # _run_once unregisters inside a for loop over events: the loop head must be reached
         if fname == '_run_once':
-            n, cex = _loop_reached(gf, 'events')
+            n, cex = _loop_reached(gf, 'self._selected_events()')
         ch.check(cex is None and n > 0, 'C10.2', f, 'unregister in finally', 'threaded %s: descriptors registered for the select are unregistered on all %d path(s)' % (fname, n),
                  'threaded %s: a path leaves descriptors registered in the per-connection selector (%s)' % (fname, cex[0] if cex else ''), witness=cex[1] if cex else None)
 
@@ -323,15 +323,18 @@ def run(ch: Checker) -> None:
 
 
 def _loop_reached(g: Any, itername: str) -> Tuple[int, Optional[Tuple[str, List[str]]]]:
-    """every path (exception edges included) passes the `for fd in <itername>` loop head whose body unregisters"""
+    """every path (exception edges included) passes the loop head that walks the result of <itername> and whose body unregisters"""
     n = 0
     for p in g.paths(limit=50000):
         n += 1
         hit = False
-        for nid, lab in p.steps:
+        sym = Sym(p)
+        for si, (nid, lab) in enumerate(p.steps):
             nd = g.nodes[nid]
-            if nd.kind == 'for' and norm(nd.ast.iter) == itername and _has_call(ast.Module(body=nd.ast.body, type_ignores=[]), ('self.selector.unregister',)):
-                hit = True
+            if nd.kind == 'for' and _has_call(ast.Module(body=nd.ast.body, type_ignores=[]), ('self.selector.unregister',)):
+                # the loop walks what was registered: by value, (part of) the result of the call named by `itername`, whatever the local is called
+                if itername in norm(sym.value(nd.ast.iter, si)):
+                    hit = True
         # paths that raise before the descriptors were registered (inside _selected_events) have nothing to undo
         registered = any(nd2.ast is not None and nd2.kind == 'stmt' and lab2 != 'exc' and '_selected_events' in norm(nd2.ast) for (i2, lab2) in p.steps for nd2 in [g.nodes[i2]])
         if any(g.nodes[i2].kind == 'stmt' and isinstance(g.nodes[i2].ast, ast.Assert) for i2, _ in p.steps):
